@@ -53,6 +53,8 @@ structure PB (k : Core) (i : Nat) (j : Nat) (t : TxC) : Prop where
     ¬ (k.cur.aTarget = k.cur.aIndex ∧ (t.ca = .pending ∨ t.ca = .inProgress))
   rbApply : j = k.cur.aIndex → cPrevBusyRbApply k i = some false →
     ¬ (k.cur.aIndex = i ∧ (t.ca = .pending ∨ t.ca = .inProgress))
+  commit : j = k.cur.cIndex → cPrevBusyCommit k = some false →
+    ¬ (k.cur.cTarget = k.cur.cIndex ∧ (t.cc = .pending ∨ t.cc = .inProgress))
 
 theorem PB.of {k : Core} {i j : Nat} {t : TxC} (hj : k.tx j = some t) : PB k i j t := by
   constructor
@@ -74,6 +76,12 @@ theorem PB.of {k : Core} {i j : Nat} {t : TxC} (hj : k.tx j = some t) : PB k i j
     rw [hj] at hB
     simp only at hB
     rintro ⟨h1, h2 | h2⟩ <;> simp_all [PS.ltComplete, PS.toNat]
+  · intro e hB
+    subst e
+    unfold cPrevBusyCommit at hB
+    rw [hj] at hB
+    simp only at hB
+    rintro ⟨h1, h2 | h2⟩ <;> simp_all [PS.leInProgress, PS.toNat]
 
 theorem pred64_of_pos {n : Nat} (h : 1 ≤ n) : pred64 n + 1 = n := by
   unfold pred64
@@ -95,7 +103,7 @@ theorem OInv.first_g {k : Core} {i : Nat} {t : TxC} {a : Act} {rest : List Act} 
   obtain ⟨w1,w2,w3,w4,w5,w6,w7,w8⟩ := x1
   obtain ⟨o1,o2,o3,o4,o5,o6,o7,o8,o9,o10,o11,o12,o13,o14,o15⟩ := h.one i t ht
   obtain ⟨og⟩ := h.gl
-  obtain ⟨b1,b2,b3⟩ := PB.of (i := i) ht
+  obtain ⟨b1,b2,b3,b4⟩ := PB.of (i := i) ht
   have hp64 := @pred64_of_pos
   cases he <;> simp only [cActTx, cActCur] <;> constructor <;> grind
 
@@ -108,7 +116,7 @@ theorem OInv.first_s {k : Core} {i : Nat} {t : TxC} {a : Act} {rest : List Act} 
   obtain ⟨w1,w2,w3,w4,w5,w6,w7,w8⟩ := x1
   obtain ⟨o1,o2,o3,o4,o5,o6,o7,o8,o9,o10,o11,o12,o13,o14,o15⟩ := h.one i t ht
   obtain ⟨og⟩ := h.gl
-  obtain ⟨b1,b2,b3⟩ := PB.of (i := i) ht
+  obtain ⟨b1,b2,b3,b4⟩ := PB.of (i := i) ht
   have hp64 := @pred64_of_pos
   cases he <;> simp only [cActTx, cActCur] <;> constructor <;> grind
 
@@ -123,10 +131,10 @@ theorem OInv.first_o {k : Core} {i : Nat} {t : TxC} {a : Act} {rest : List Act} 
   obtain ⟨w1,w2,w3,w4,w5,w6,w7,w8⟩ := x1
   obtain ⟨o1,o2,o3,o4,o5,o6,o7,o8,o9,o10,o11,o12,o13,o14,o15⟩ := h.one i t ht
   obtain ⟨og⟩ := h.gl
-  obtain ⟨b1,b2,b3⟩ := PB.of (i := i) ht
+  obtain ⟨b1,b2,b3,b4⟩ := PB.of (i := i) ht
   have hp64 := @pred64_of_pos
   intro j tj hne hx h1 h2 h3
-  obtain ⟨⟨y1,y2,y3,y4,y5,y6,y7,y8,y9,y10,y11,y12,y13,y14,y15,y16⟩, ⟨z1,z2,z3⟩⟩ := hx
+  obtain ⟨⟨y1,y2,y3,y4,y5,y6,y7,y8,y9,y10,y11,y12,y13,y14,y15,y16⟩, ⟨z1,z2,z3,z4⟩⟩ := hx
   obtain ⟨v1,v2,v3,v4,v5,v6,v7,v8⟩ := y1
   obtain ⟨p1,p2,p3,p4,p5,p6,p7,p8,p9,p10,p11,p12,p13,p14,p15⟩ := h1
   obtain ⟨q1,q2,q3,q4,q5,q6⟩ := h2
@@ -146,12 +154,12 @@ theorem OInv.first_p {k : Core} {i : Nat} {t : TxC} {a : Act} {rest : List Act} 
   obtain ⟨w1,w2,w3,w4,w5,w6,w7,w8⟩ := x1
   obtain ⟨o1,o2,o3,o4,o5,o6,o7,o8,o9,o10,o11,o12,o13,o14,o15⟩ := h.one i t ht
   obtain ⟨og⟩ := h.gl
-  obtain ⟨b1,b2,b3⟩ := PB.of (i := i) ht
+  obtain ⟨b1,b2,b3,b4⟩ := PB.of (i := i) ht
   have hp64 := @pred64_of_pos
   intro j1 t1 j2 t2 hn1 hn2 hne hx1 hx2 h1 h2 h3 h4 h5 h6 h7
-  obtain ⟨⟨y1,y2,y3,y4,y5,y6,y7,y8,y9,y10,y11,y12,y13,y14,y15,y16⟩, ⟨z1,z2,z3⟩⟩ := hx1
+  obtain ⟨⟨y1,y2,y3,y4,y5,y6,y7,y8,y9,y10,y11,y12,y13,y14,y15,y16⟩, ⟨z1,z2,z3,z4⟩⟩ := hx1
   obtain ⟨v1,v2,v3,v4,v5,v6,v7,v8⟩ := y1
-  obtain ⟨⟨Y1,Y2,Y3,Y4,Y5,Y6,Y7,Y8,Y9,Y10,Y11,Y12,Y13,Y14,Y15,Y16⟩, ⟨Z1,Z2,Z3⟩⟩ := hx2
+  obtain ⟨⟨Y1,Y2,Y3,Y4,Y5,Y6,Y7,Y8,Y9,Y10,Y11,Y12,Y13,Y14,Y15,Y16⟩, ⟨Z1,Z2,Z3,Z4⟩⟩ := hx2
   obtain ⟨V1,V2,V3,V4,V5,V6,V7,V8⟩ := Y1
   obtain ⟨p1,p2,p3,p4,p5,p6,p7,p8,p9,p10,p11,p12,p13,p14,p15⟩ := h1
   obtain ⟨P1,P2,P3,P4,P5,P6,P7,P8,P9,P10,P11,P12,P13,P14,P15⟩ := h2
@@ -171,7 +179,7 @@ theorem OInv.both_g {k : Core} {i : Nat} {t : TxC} {a b : Act} (hc : CInv k) (h 
   obtain ⟨w1,w2,w3,w4,w5,w6,w7,w8⟩ := x1
   obtain ⟨o1,o2,o3,o4,o5,o6,o7,o8,o9,o10,o11,o12,o13,o14,o15⟩ := h.one i t ht
   obtain ⟨og⟩ := h.gl
-  obtain ⟨b1,b2,b3⟩ := PB.of (i := i) ht
+  obtain ⟨b1,b2,b3,b4⟩ := PB.of (i := i) ht
   have hp64 := @pred64_of_pos
   cases he <;> simp only [cActTx, cActCur] <;> constructor <;> grind
 
@@ -184,7 +192,7 @@ theorem OInv.both_s {k : Core} {i : Nat} {t : TxC} {a b : Act} (hc : CInv k) (h 
   obtain ⟨w1,w2,w3,w4,w5,w6,w7,w8⟩ := x1
   obtain ⟨o1,o2,o3,o4,o5,o6,o7,o8,o9,o10,o11,o12,o13,o14,o15⟩ := h.one i t ht
   obtain ⟨og⟩ := h.gl
-  obtain ⟨b1,b2,b3⟩ := PB.of (i := i) ht
+  obtain ⟨b1,b2,b3,b4⟩ := PB.of (i := i) ht
   have hp64 := @pred64_of_pos
   cases he <;> simp only [cActTx, cActCur] <;> constructor <;> grind
 
@@ -199,10 +207,10 @@ theorem OInv.both_o {k : Core} {i : Nat} {t : TxC} {a b : Act} (hc : CInv k) (h 
   obtain ⟨w1,w2,w3,w4,w5,w6,w7,w8⟩ := x1
   obtain ⟨o1,o2,o3,o4,o5,o6,o7,o8,o9,o10,o11,o12,o13,o14,o15⟩ := h.one i t ht
   obtain ⟨og⟩ := h.gl
-  obtain ⟨b1,b2,b3⟩ := PB.of (i := i) ht
+  obtain ⟨b1,b2,b3,b4⟩ := PB.of (i := i) ht
   have hp64 := @pred64_of_pos
   intro j tj hne hx h1 h2 h3
-  obtain ⟨⟨y1,y2,y3,y4,y5,y6,y7,y8,y9,y10,y11,y12,y13,y14,y15,y16⟩, ⟨z1,z2,z3⟩⟩ := hx
+  obtain ⟨⟨y1,y2,y3,y4,y5,y6,y7,y8,y9,y10,y11,y12,y13,y14,y15,y16⟩, ⟨z1,z2,z3,z4⟩⟩ := hx
   obtain ⟨v1,v2,v3,v4,v5,v6,v7,v8⟩ := y1
   obtain ⟨p1,p2,p3,p4,p5,p6,p7,p8,p9,p10,p11,p12,p13,p14,p15⟩ := h1
   obtain ⟨q1,q2,q3,q4,q5,q6⟩ := h2
@@ -222,12 +230,12 @@ theorem OInv.both_p {k : Core} {i : Nat} {t : TxC} {a b : Act} (hc : CInv k) (h 
   obtain ⟨w1,w2,w3,w4,w5,w6,w7,w8⟩ := x1
   obtain ⟨o1,o2,o3,o4,o5,o6,o7,o8,o9,o10,o11,o12,o13,o14,o15⟩ := h.one i t ht
   obtain ⟨og⟩ := h.gl
-  obtain ⟨b1,b2,b3⟩ := PB.of (i := i) ht
+  obtain ⟨b1,b2,b3,b4⟩ := PB.of (i := i) ht
   have hp64 := @pred64_of_pos
   intro j1 t1 j2 t2 hn1 hn2 hne hx1 hx2 h1 h2 h3 h4 h5 h6 h7
-  obtain ⟨⟨y1,y2,y3,y4,y5,y6,y7,y8,y9,y10,y11,y12,y13,y14,y15,y16⟩, ⟨z1,z2,z3⟩⟩ := hx1
+  obtain ⟨⟨y1,y2,y3,y4,y5,y6,y7,y8,y9,y10,y11,y12,y13,y14,y15,y16⟩, ⟨z1,z2,z3,z4⟩⟩ := hx1
   obtain ⟨v1,v2,v3,v4,v5,v6,v7,v8⟩ := y1
-  obtain ⟨⟨Y1,Y2,Y3,Y4,Y5,Y6,Y7,Y8,Y9,Y10,Y11,Y12,Y13,Y14,Y15,Y16⟩, ⟨Z1,Z2,Z3⟩⟩ := hx2
+  obtain ⟨⟨Y1,Y2,Y3,Y4,Y5,Y6,Y7,Y8,Y9,Y10,Y11,Y12,Y13,Y14,Y15,Y16⟩, ⟨Z1,Z2,Z3,Z4⟩⟩ := hx2
   obtain ⟨V1,V2,V3,V4,V5,V6,V7,V8⟩ := Y1
   obtain ⟨p1,p2,p3,p4,p5,p6,p7,p8,p9,p10,p11,p12,p13,p14,p15⟩ := h1
   obtain ⟨P1,P2,P3,P4,P5,P6,P7,P8,P9,P10,P11,P12,P13,P14,P15⟩ := h2
@@ -242,13 +250,13 @@ theorem OInv.both_p {k : Core} {i : Nat} {t : TxC} {a b : Act} (hc : CInv k) (h 
 theorem OInv.first {k : Core} {i : Nat} {t : TxC} {a : Act} {rest : List Act} (hc : CInv k) (h : OInv k)
     (ht : k.tx i = some t) (he : Enabled k i t (a :: rest)) : OInv (cAct k a) :=
   h.upd (X := fun j tj => CTx k.cur k.txs.length j tj ∧ PB k i j tj) ht (he.upd1 ht)
-    (fun _ _ hj => ⟨hc.ctx hj, PB.of hj⟩)
+    (fun _ _ hj _ => ⟨hc.ctx hj, PB.of hj⟩)
     (OInv.first_g hc h ht he) (OInv.first_s hc h ht he) (OInv.first_o hc h ht he) (OInv.first_p hc h ht he)
 
 theorem OInv.both {k : Core} {i : Nat} {t : TxC} {a b : Act} (hc : CInv k) (h : OInv k)
     (ht : k.tx i = some t) (he : Enabled k i t [a, b]) : OInv (cAct (cAct k a) b) :=
   h.upd (X := fun j tj => CTx k.cur k.txs.length j tj ∧ PB k i j tj) ht (he.upd2 ht)
-    (fun _ _ hj => ⟨hc.ctx hj, PB.of hj⟩)
+    (fun _ _ hj _ => ⟨hc.ctx hj, PB.of hj⟩)
     (OInv.both_g hc h ht he) (OInv.both_s hc h ht he) (OInv.both_o hc h ht he) (OInv.both_p hc h ht he)
 
 
@@ -319,7 +327,7 @@ theorem OInv.rollback {k : Core} {i : Nat} {t : TxC} (hc : CInv k) (h : OInv k) 
   obtain ⟨w1,w2,w3,w4,w5,w6,w7,w8⟩ := x1
   obtain ⟨o1,o2,o3,o4,o5,o6,o7,o8,o9,o10,o11,o12,o13,o14,o15⟩ := h.one i t ht
   obtain ⟨og⟩ := h.gl
-  refine h.upd (X := fun j tj => CTx k.cur k.txs.length j tj) ht (Upd.ofSetTx ht) (fun _ _ hj => hc.ctx hj) ⟨og⟩ ?_ ?_ ?_
+  refine h.upd (X := fun j tj => CTx k.cur k.txs.length j tj) ht (Upd.ofSetTx ht) (fun _ _ hj _ => hc.ctx hj) ⟨og⟩ ?_ ?_ ?_
   · constructor <;> simp only [cRollback] <;> grind
   · intro j tj hne hx h1 h2 h3
     obtain ⟨y1,y2,y3,y4,y5,y6,y7,y8,y9,y10,y11,y12,y13,y14,y15,y16⟩ := hx
